@@ -269,7 +269,7 @@ func TestOptimalRandom(t *testing.T) {
 			optimalOne(t, kind, in, d)
 		}
 		n++
-		if n%701 == 7 && bs.Describe(in).Uneven {
+		if n%97 == 7 && bs.Describe(in).Uneven && nontrivial(in) && assignable(in) >= 6 {
 			ev.SampleIf(func() any {
 				p, _ := bs.Run(bs.Balancer(bs.Sticky), in)
 				return map[string]any{"kind": "optimality, random", "balancer": "sticky", "input": d, "plan": p.String(), "loads": bs.Loads(in, p)}
